@@ -281,89 +281,5 @@ fn c16_directive_m() {
     }
     std::mem::forget(entry);
 }
-fn letter(mode: u32) -> u8 {
-    match mode & libc::S_IFMT {
-        libc::S_IFREG => b'f', libc::S_IFDIR => b'd', libc::S_IFLNK => b'l', libc::S_IFBLK => b'b',
-        libc::S_IFCHR => b'c', libc::S_IFIFO => b'p', libc::S_IFSOCK => b's', _ => b'U',
-    }
-}
-fn run_directive_y(big_y: bool) {
-    let (lst, sst, s_ok, s_err) = if big_y { any_world(&[libc::ENOENT, libc::ELOOP, libc::EACCES]) } else { any_world(&[libc::ENOENT]) };
-    let follow = any_follow();
-    let depth: usize = 0; // -H at depth 0 behaves as -L, at depth > 0 as -P: follow_at_depth itself is c13_entry_metadata_record's subject
-    let follows = follow.follow_at_depth(depth);
-    let entry = WalkEntry::new("a", depth, follow);
-    let r = format_directive(&entry, &FormatDirective::Type { follow_links: big_y });
-    match r {
-        Ok(s) => {
-            let b = s.as_bytes();
-            assert!(b.len() == 1);
-            if !big_y {
-                match selected_record(lst, sst, s_ok, s_err, follows) {
-                    Some(rec) => assert!(b[0] == letter(rec.st_mode)),
-                    None => assert!(b[0] == b'U'),
-                }
-                kani::cover!(follows && is_type(lst.st_mode, libc::S_IFLNK) && s_ok);
-                kani::cover!(follows && b[0] == b'l');
-            } else if !follows {
-                let want = if !is_type(lst.st_mode, libc::S_IFLNK) { letter(lst.st_mode) }
-                    else if s_ok { letter(sst.st_mode) }
-                    else if s_err == libc::ENOENT { b'N' } else if s_err == libc::ELOOP { b'L' } else { b'?' };
-                assert!(b[0] == want);
-                kani::cover!(b[0] == b'N');
-                kani::cover!(b[0] == b'L');
-            }
-            std::mem::forget(s);
-        }
-        Err(e) => { std::mem::forget(e); assert!(false); }
-    }
-    std::mem::forget(entry);
-}
-// @harness props=C16 tier=thorough cost=900 flags=nomem
-// @exec format_directive(%y), format_non_link_file_type, WalkEntry::{path_is_symlink,file_type}
-// @sym world (all file types, stat errno ENOENT), follow P/H/L at depth 0
-// @bounds one path, depth 0
-// @assume kernel contract for stat vs lstat
-// @replay printf_y
-/// %y is the letter of the type -type tests: the record the follow mode selects (a dangling link under -L is still 'l').
-#[kani::proof]
-#[kani::unwind(3)]
-#[kani::stub(alloc::fmt::format, fmt_stub)]
-#[kani::stub(alloc::raw_vec::handle_error, he_stub)]
-#[kani::stub(std::alloc::handle_alloc_error, hae_stub)]
-#[kani::stub(std::rt::thread_cleanup, noop_stub)]
-#[kani::stub(std::fs::metadata, stat_stub)]
-#[kani::stub(std::fs::symlink_metadata, lstat_stub)]
-fn c16_directive_y() { run_directive_y(false); }
-// @harness props=C16 tier=thorough cost=900 flags=nomem
-// @exec format_directive(%Y), WalkError::{is_not_found,is_loop}
-// @sym world (all file types, stat errno {ENOENT, ELOOP, EACCES}), follow P/H/L at depth 0
-// @bounds one path; asserted only where the follow mode does not apply to the entry (under -L, GNU's %Y and -xtype differ by design)
-// @assume kernel contract for stat vs lstat
-/// %Y, for an entry the follow mode does not resolve, is the letter -xtype tests: the link's target type, N if dangling, L on a loop, ? otherwise.
-#[kani::proof]
-#[kani::unwind(3)]
-#[kani::stub(alloc::fmt::format, fmt_stub)]
-#[kani::stub(alloc::raw_vec::handle_error, he_stub)]
-#[kani::stub(std::alloc::handle_alloc_error, hae_stub)]
-#[kani::stub(std::rt::thread_cleanup, noop_stub)]
-#[kani::stub(std::fs::metadata, stat_stub)]
-#[kani::stub(std::fs::symlink_metadata, lstat_stub)]
-fn c16_directive_big_y() { run_directive_y(true); }
-#[kani::proof]
-#[kani::unwind(3)]
-#[kani::stub(alloc::fmt::format, fmt_stub)]
-#[kani::stub(alloc::raw_vec::handle_error, he_stub)]
-#[kani::stub(std::alloc::handle_alloc_error, hae_stub)]
-#[kani::stub(std::rt::thread_cleanup, noop_stub)]
-#[kani::stub(std::fs::metadata, stat_stub)]
-#[kani::stub(std::fs::symlink_metadata, lstat_stub)]
-fn c16_directive_big_y_canary() {
-    let (lst, _sst, _s_ok, _s_err) = any_world(&[libc::ENOENT]);
-    let entry = WalkEntry::new("a", 1, Follow::Never);
-    if let Ok(s) = format_directive(&entry, &FormatDirective::Type { follow_links: true }) {
-        assert!(s.as_bytes()[0] == letter(lst.st_mode)); // %Y == %y: must FAIL
-        std::mem::forget(s);
-    }
-    std::mem::forget(entry);
-}
+// %y / %Y: the Kani harnesses that used to stand here (c16_directive_y, c16_directive_big_y) exhaust 24 GiB; the property
+// is decided by the MIR-level check mirsym/c16_types.py instead (same symbolic stat world, plus walkdir entries and depth 1).
